@@ -86,7 +86,17 @@ PLANS = {
         "quick": [st("dbg", "saveload", 12000, 60, 8), st("rel", "saveload", 12000, 60, 8)],
         "thorough": [st("dbg", "saveload", 200000, 60, 16, 3000), st("rel", "saveload", 200000, 200, 16, 3000)],
     },
+    "C16": {
+        "quick": [st("dbg", "changeset", 16000, 14, 8), st("rel", "changeset", 16000, 14, 8)],
+        "thorough": [st("dbg", "changeset", 400000, 16, 16, 3000), st("rel", "changeset", 400000, 16, 16, 3000),
+                     st("asan", "changeset", 40000, 14, 16, 3000)],
+    },
     "C17": world(miri=False, asan=False),
+    "C19": {
+        "quick": [st("dbg", "panicdrop", 2992, 12, 8), st("rel", "panicdrop", 2992, 12, 8)],
+        "thorough": [st("dbg", "panicdrop", 1496 * 40, 12, 16, 3000), st("rel", "panicdrop", 1496 * 40, 12, 16, 3000),
+                     st("rel", "panicdrop", 1496 * 8, 12, 16, 3000, big=1), st("asan", "panicdrop", 1496 * 8, 12, 16, 3000)],
+    },
     "C18": {
         "quick": [script("derivegen", "derivegen/derivegen.py", ["--types", 60, "--values", 200, "--batches", 2])],
         "thorough": [script("derivegen", "derivegen/derivegen.py", ["--types", 1500, "--values", 2000, "--batches", 10,
@@ -94,7 +104,7 @@ PLANS = {
     },
 }
 
-LEVELS = {}
+LEVELS = {"C19": "fault_enumeration"}
 
 RULES = {
     "C01": "random histories over all 9 creation paths x 4 deletion paths x maintain (seeded generator, hostile motifs planted); "
@@ -117,6 +127,10 @@ RULES.update({
            "non-trivial = configuration whose intersection is non-empty, differs from at least one member's own set and spans >=2 layer-0 words",
     "C07": "16 parallel join shapes (entities, shared / mutable storages of every DistinctStorage kind, maybe, anti, bit sets, restricted views; arity 1-12) on rayon pools of 1, 2, 3, 4, 8, 16 and 64 threads, run as map+collect / for_each / fold+reduce with seeded per-item delays so stealing and producer splitting vary; "
            "non-trivial = run in which >=2 threads delivered items and the joined indices span >=2 layer-1 words (>= 4096 apart); distinct = distinct (shape, pool, index->thread partition) signatures",
+    "C16": "change sets built by collect / extend / add / clear from (entity, amount) sequences with four repetition patterns (all same, round robin, runs, random) over dense, sparse and layer-boundary indices incl. dead entities; amounts are sequences whose += appends and carry a ledger value; joined shared / mutable / by value (complete, partial, with storages, lending); "
+           "non-trivial = case in which some entity received >=3 amounts interleaved with other entities' amounts",
+    "C19": "enumerated grid: 17 storage kind / wrapper combinations x 11 destroying operations (clear, delete_entity, delete_entities, deferred delete + maintain, delete_all, drop(world), drop(world) with queued lazy inserts, lazy overwrite + maintain, refused insert / default placeholder overwrite, lazy remove + maintain, ChangeSet clear / drop / by-value join dropped midway) x panicking destructor call k in {1..6, middle, last}, random populations, then random continuation on the surviving world; "
+           "non-trivial = case where the panicking destructor call was neither the first nor the last of >=3 destroyed values",
     "C11": "random system graphs (331 system-data shapes over 4 component storages + Entities + Read<LazyUpdate>, random DAG dependencies, barriers, thread-local systems, pools of 1-32 threads, 3-10 dispatches each); "
            "non-trivial = graph with >=2 systems sharing a storage of which >=1 writes and a dispatch in which >=2 systems overlapped in logical time",
     "C12": "the C04 operation sequences on the 11 tracked wrapper/inner combinations with a registered reader; window = one operation; event emission toggled at random points; clear() excluded; "
